@@ -20,5 +20,8 @@ let run (line : string) : string =
       let pieces cfg q = (compile cfg q).r_panic ||
         nolayout (compile cfg q).r_code = nolayout (wops_bytes cfg (write_program q)) in
       let pc = pieces (cfg_compact true) p && pieces (cfg_pretty tab false false) p && pieces (cfg_pretty [] true true) p in
-      Printf.sprintf "errs=%d m=%s wf=%s mL=%s wfL=%s tp=%s ct=%s pc=%s" (min 1 (List.length r.pr_errors)) (b01 (m_program p toks)) (b01 (wf_program p))
-        (b01 (m_programL p toks)) (b01 (wf_programL p)) (b01 (token_preserving p toks)) (b01 ct) (b01 pc)
+      let sl = b01 (segments_link (cfg_compact true) p toks) ^ b01 (segments_link (cfg_pretty tab true true) p toks)
+               ^ b01 (segments_link (cfg_pretty [] false true) p toks) in
+      let ic = b01 (idents_covered (cfg_compact true) p toks) ^ b01 (idents_covered (cfg_pretty tab true true) p toks) in
+      Printf.sprintf "errs=%d m=%s wf=%s mL=%s wfL=%s tp=%s ct=%s pc=%s sl=%s ic=%s lt=%s" (min 1 (List.length r.pr_errors)) (b01 (m_program p toks)) (b01 (wf_program p))
+        (b01 (m_programL p toks)) (b01 (wf_programL p)) (b01 (token_preserving p toks)) (b01 ct) (b01 pc) sl ic (b01 (match toks with t :: _ -> t.t_comments <> [] | [] -> false))
